@@ -296,6 +296,10 @@ class GroupLibrary(Mapping):
     def Update(self, lib, overwrite=False):
         """Add complete contents of `lib` into this library.
 
+        If the merge is refused (data of `lib` differ from data already
+        present and `overwrite` is False, or both libraries carry uncertainty
+        quantification data), this library is left unchanged.
+
         Parameters
         ----------
         lib : :class:`GroupLibrary`
@@ -303,21 +307,36 @@ class GroupLibrary(Mapping):
         overwrite : bool
             If True, then existing data may be overwritten by data from `lib`.
         """
+        # First pass: find out whether the merge goes through.  Nothing is
+        # stored yet: new property sets are copied, and a merge into an
+        # existing property set is tried on a copy of it.
+        staged = []
         for (group, other_property_sets) in list(lib.items()):
+            property_sets = self.contents.get(group, {})
+            copies = {}
+            for name in other_property_sets:
+                if name not in property_sets:
+                    copies[name] = other_property_sets[name].copy()
+                else:
+                    property_sets[name].copy().update(
+                        other_property_sets[name], overwrite)
+            staged.append((group, other_property_sets, copies))
+        # UQ stuff can only be loaded once
+        if self.uq_contents and lib.uq_contents:
+            raise ValueError('More than one uncertainty quantification',
+                             'information provided')
+        # Second pass: store.
+        for (group, other_property_sets, copies) in staged:
             if group not in self.contents:
                 self.contents[group] = {}
             property_sets = self.contents[group]
 
             for name in other_property_sets:
-                if name not in property_sets:
-                    property_sets[name] = other_property_sets[name].copy()
+                if name in copies:
+                    property_sets[name] = copies[name]
                 else:
                     property_sets[name].update(
                         other_property_sets[name], overwrite)
-        # UQ stuff can only be loaded once
-        if self.uq_contents and lib.uq_contents:
-            raise ValueError('More than one uncertainty quantification',
-                             'information provided')
         if not self.uq_contents:
             self.uq_contents = lib.uq_contents
     _yaml_loader = yaml_io.make_object_loader(yaml_io.parse("""
